@@ -1,5 +1,8 @@
 import Proofs.Chain
 import Proofs.ConvNet
+import Proofs.DeconvBridge
+import Proofs.DenseBlock
+import Proofs.MaxpoolLocal
 
 /-!
 # The model's layer kinds as links of a `Chain` (C01): dense, convolution, convolution followed by a
@@ -138,6 +141,138 @@ theorem vjp_conv_kernels (l : Conv ℝ) (a : Act) (K : V (I4 kf kc kh kw)) (hl :
 
 end conv
 
+/-! ### deconvolution -/
+
+section deconv
+open DeconvVJP DeconvBridge
+variable {kf kc kh kw ih iw oh ow : ℕ}
+
+noncomputable def deconvFn (l : Deconv ℝ) (a : Act) (K : V (I4 kf kc kh kw)) (ih iw oh ow : ℕ) (x : V (I3 kc ih iw)) :
+    V (I3 kf oh ow) := fun i => Act.f a (DeconvBridge.pre l K ih iw oh ow x i)
+
+/-- a deconvolution whose output stays `kf × oh × ow` -/
+noncomputable def consDeconv {k : Idx} {ek : Enc k} (l : Deconv ℝ) (a : Act) (K : V (I4 kf kc kh kw)) (ih iw : ℕ)
+    (rest : Chain (iVol kf oh ow) (eVol kf oh ow) k ek) : Chain (iVol kc ih iw) (eVol kc ih iw) k ek :=
+  .cons (.deconv l) (deconvFn l a K ih iw oh ow) (bwdX l a K ih iw oh ow) (fun x => T3 (DeconvBridge.pre l K ih iw oh ow x))
+    (fun _ => .none) (fun x g => (.one (T4 (bwdKer l a K ih iw oh ow x g)), .one none)) rest
+
+/-- a deconvolution whose output is flattened (a dense layer follows) -/
+noncomputable def consDeconvFlat {k : Idx} {ek : Enc k} (l : Deconv ℝ) (a : Act) (K : V (I4 kf kc kh kw)) (ih iw : ℕ)
+    (rest : Chain (iVec (kf * oh * ow)) (eVec (kf * oh * ow)) k ek) : Chain (iVol kc ih iw) (eVol kc ih iw) k ek :=
+  .cons (.deconv l) (fun x => flat (deconvFn l a K ih iw oh ow x)) (fun x g => bwdX l a K ih iw oh ow x (unflat g))
+    (fun x => T3 (DeconvBridge.pre l K ih iw oh ow x)) (fun _ => .none)
+    (fun x g => (.one (T4 (bwdKer l a K ih iw oh ow x (unflat g))), .one none)) rest
+
+theorem real_deconv (l : Deconv ℝ) (a : Act) (K : V (I4 kf kc kh kw)) (hl : IsDeconv l a K ih iw oh ow) (ha : a ≠ .softmax)
+    (hfl : l.flatten = false) (x : V (I3 kc ih iw)) :
+    layerForward (.deconv l) (T3 x) = .ok (T3 (DeconvBridge.pre l K ih iw oh ow x), T3 (deconvFn l a K ih iw oh ow x), .none) ∧
+    ∀ g, layerBackward (.deconv l) (T3 g) (T3 x) (T3 (DeconvBridge.pre l K ih iw oh ow x)) (.ok .none) =
+      .ok (T3 (bwdX l a K ih iw oh ow x g), .one (T4 (bwdKer l a K ih iw oh ow x g)), .one none) := by
+  refine ⟨?_, fun g => ?_⟩
+  · simp only [layerForward, DeconvBridge.forward_gen l a K hl ha x, hfl]
+    rfl
+  · simp only [layerBackward, DeconvBridge.backward_eq l a K hl ha x g (T3 g) rfl]
+
+theorem real_deconv_flat (l : Deconv ℝ) (a : Act) (K : V (I4 kf kc kh kw)) (hl : IsDeconv l a K ih iw oh ow) (ha : a ≠ .softmax)
+    (hfl : l.flatten = true) (x : V (I3 kc ih iw)) :
+    layerForward (.deconv l) (T3 x) =
+      .ok (T3 (DeconvBridge.pre l K ih iw oh ow x), vecT (flat (deconvFn l a K ih iw oh ow x)), .none) ∧
+    ∀ g : Vec (kf * oh * ow), layerBackward (.deconv l) (vecT g) (T3 x) (T3 (DeconvBridge.pre l K ih iw oh ow x)) (.ok .none) =
+      .ok (T3 (bwdX l a K ih iw oh ow x (unflat g)), .one (T4 (bwdKer l a K ih iw oh ow x (unflat g))), .one none) := by
+  obtain ⟨hkf, hkc, hkh, hih, hoh⟩ := hl.pos
+  refine ⟨?_, fun g => ?_⟩
+  · simp only [layerForward, DeconvBridge.forward_gen l a K hl ha x, hfl, ↓reduceIte, flatten_T3 _ hkf hoh]
+    rfl
+  · simp only [layerBackward, DeconvBridge.backward_eq l a K hl ha x (unflat g) (vecT g)
+      (by rw [hl.outputs]; exact getTriple_vecT g)]
+
+theorem deconv_delta_eq (a : Act) (p g : V (I3 kf oh ow)) : DeconvBridge.delta a p g = fun i => Act.df a (p i) * g i := by
+  funext i; simp only [DeconvBridge.delta]; ring
+
+theorem vjp_deconv (l : Deconv ℝ) (a : Act) (K : V (I4 kf kc kh kw)) (ha : a ≠ .softmax)
+    (x : V (I3 kc ih iw)) (hk : ∀ i, NoKink a (DeconvBridge.pre l K ih iw oh ow x i)) :
+    IsVJP (ι := (iVol kc ih iw).T) (κ := (iVol kf oh ow).T) (deconvFn l a K ih iw oh ow) x (bwdX l a K ih iw oh ow x) := by
+  have h := isVJP_elementwise _ x _ (Act.f a) (Act.df a)
+    (deconv_isVJP l kf kc kh kw ih iw oh ow (toList4 K) (toList3 x) x) (fun i => act_hasDerivAt a ha _ (hk i))
+  have hb : bwdX l a K ih iw oh ow x = fun g => deconvBwd l kf kc kh kw ih iw oh ow (toList4 K) (toList3 x) fun i =>
+      a.df (deconvPre l kf kc kh kw ih iw oh ow (toList4 K) x i) * g i := by
+    funext g; simp only [bwdX, deconv_delta_eq]
+  rw [hb]
+  exact h
+
+theorem vjp_deconv_flat (l : Deconv ℝ) (a : Act) (K : V (I4 kf kc kh kw)) (ha : a ≠ .softmax)
+    (x : V (I3 kc ih iw)) (hk : ∀ i, NoKink a (DeconvBridge.pre l K ih iw oh ow x i)) :
+    IsVJP (ι := (iVol kc ih iw).T) (κ := (iVec (kf * oh * ow)).T) (fun x => flat (deconvFn l a K ih iw oh ow x)) x
+      (fun g => bwdX l a K ih iw oh ow x (unflat g)) :=
+  IsVJP.comp (vjp_deconv l a K ha x hk) (flat_isVJP (deconvFn l a K ih iw oh ow x))
+
+theorem vjp_deconv_kernels (l : Deconv ℝ) (a : Act) (K : V (I4 kf kc kh kw)) (ha : a ≠ .softmax)
+    (x : V (I3 kc ih iw)) (hk : ∀ i, NoKink a (DeconvBridge.pre l K ih iw oh ow x i)) :
+    IsVJP (fun K' => deconvFn l a K' ih iw oh ow x) K (bwdKer l a K ih iw oh ow x) := by
+  have h := isVJP_elementwise _ K _ (Act.f a) (Act.df a)
+    (deconv_kernel_isVJP l kf kc kh kw ih iw oh ow (toList3 x) (toList4 K) K) (fun i => act_hasDerivAt a ha _ (hk i))
+  have hb : bwdKer l a K ih iw oh ow x = fun g => deconvBwdK l kf kc kh kw ih iw oh ow (toList3 x) (toList4 K) fun i =>
+      a.df (deconvPreK l kf kc kh kw ih iw oh ow (toList3 x) K i) * g i := by
+    funext g; simp only [bwdKer, deconv_delta_eq]; rfl
+  rw [hb]
+  exact h
+
+end deconv
+
+/-! ### max-pool -/
+
+section pool
+open MaxpoolVJP MaxpoolBridge MaxpoolLocal
+variable {ic ih iw oh ow : ℕ}
+
+noncomputable def poolBwd (l : Maxpool ℝ) (ih iw oh ow : ℕ) (x : V (I3 ic ih iw)) (g : V (I3 ic oh ow)) : V (I3 ic ih iw) :=
+  routeV l (idxOf l ih iw oh ow x) ic ih iw oh ow g
+
+/-- a max-pool whose output stays `ic × oh × ow` -/
+noncomputable def consPool {k : Idx} {ek : Enc k} (l : Maxpool ℝ) (ih iw : ℕ)
+    (rest : Chain (iVol ic oh ow) (eVol ic oh ow) k ek) : Chain (iVol ic ih iw) (eVol ic ih iw) k ek :=
+  .cons (.maxpool l) (poolFn l ih iw oh ow) (poolBwd l ih iw oh ow) (fun x => T3 (poolFn l ih iw oh ow x))
+    (fun x => .max (idxOf l ih iw oh ow x)) (fun _ _ => (.one (Tensor.single []), .one none)) rest
+
+/-- a max-pool whose output is flattened (a dense layer follows) -/
+noncomputable def consPoolFlat {k : Idx} {ek : Enc k} (l : Maxpool ℝ) (ih iw : ℕ)
+    (rest : Chain (iVec (ic * oh * ow)) (eVec (ic * oh * ow)) k ek) : Chain (iVol ic ih iw) (eVol ic ih iw) k ek :=
+  .cons (.maxpool l) (fun x => flat (poolFn l ih iw oh ow x)) (fun x g => poolBwd l ih iw oh ow x (unflat g))
+    (fun x => T3 (poolFn l ih iw oh ow x)) (fun x => .max (idxOf l ih iw oh ow x))
+    (fun _ _ => (.one (Tensor.single []), .one none)) rest
+
+theorem real_pool (l : Maxpool ℝ) (hl : IsPool l ic ih iw oh ow) (hfl : l.flatten = false) (x : V (I3 ic ih iw)) :
+    layerForward (.maxpool l) (T3 x) = .ok (T3 (poolFn l ih iw oh ow x), T3 (poolFn l ih iw oh ow x), .max (idxOf l ih iw oh ow x)) ∧
+    ∀ g pre, layerBackward (.maxpool l) (T3 g) (T3 x) pre (.ok (.max (idxOf l ih iw oh ow x))) =
+      .ok (T3 (poolBwd l ih iw oh ow x g), .one (Tensor.single []), .one none) := by
+  refine ⟨?_, fun g pre => ?_⟩
+  · simp only [layerForward, MaxpoolBridge.forward_gen l hl x, hfl]
+    rfl
+  · simp only [layerBackward, MaxpoolBridge.backward_eq l hl x g (T3 g) rfl, poolBwd]
+
+theorem real_pool_flat (l : Maxpool ℝ) (hl : IsPool l ic ih iw oh ow) (hfl : l.flatten = true) (x : V (I3 ic ih iw)) :
+    layerForward (.maxpool l) (T3 x) =
+      .ok (T3 (poolFn l ih iw oh ow x), vecT (flat (poolFn l ih iw oh ow x)), .max (idxOf l ih iw oh ow x)) ∧
+    ∀ (g : Vec (ic * oh * ow)) pre, layerBackward (.maxpool l) (vecT g) (T3 x) pre (.ok (.max (idxOf l ih iw oh ow x))) =
+      .ok (T3 (poolBwd l ih iw oh ow x (unflat g)), .one (Tensor.single []), .one none) := by
+  obtain ⟨hic, hih, hiw⟩ := hl.pos
+  have hoh : 0 < oh := by rw [hl.oh_eq]; exact Nat.succ_pos _
+  refine ⟨?_, fun g pre => ?_⟩
+  · simp only [layerForward, MaxpoolBridge.forward_gen l hl x, hfl, ↓reduceIte, flatten_T3 _ hic hoh]
+  · simp only [layerBackward, MaxpoolBridge.backward_eq l hl x (unflat g) (vecT g)
+      (by rw [hl.outputs]; exact getTriple_vecT g), poolBwd]
+
+theorem vjp_pool (l : Maxpool ℝ) (hl : IsPool l ic ih iw oh ow) (x : V (I3 ic ih iw)) (hnt : NoTies l ih iw oh ow x) :
+    IsVJP (ι := (iVol ic ih iw).T) (κ := (iVol ic oh ow).T) (poolFn l ih iw oh ow) x (poolBwd l ih iw oh ow x) :=
+  pool_isVJP l hl x hnt
+
+theorem vjp_pool_flat (l : Maxpool ℝ) (hl : IsPool l ic ih iw oh ow) (x : V (I3 ic ih iw)) (hnt : NoTies l ih iw oh ow x) :
+    IsVJP (ι := (iVol ic ih iw).T) (κ := (iVec (ic * oh * ow)).T) (fun x => flat (poolFn l ih iw oh ow x)) x
+      (fun g => poolBwd l ih iw oh ow x (unflat g)) :=
+  IsVJP.comp (vjp_pool l hl x hnt) (flat_isVJP (poolFn l ih iw oh ow x))
+
+end pool
+
 /-! ### a stack of dense layers as a chain -/
 
 noncomputable def stackChain : {n k : ℕ} → Stack n k → Chain (iVec n) (eVec n) (iVec k) (eVec k)
@@ -158,6 +293,49 @@ theorem stackChain_ok : ∀ {n k : ℕ} (s : Stack n k) (x : Vec n), s.Valid →
   | _, _, .nil _, _, _, _ => trivial
   | _, _, .cons a W b rest, x, hv, hk =>
     ⟨vjp_dense a hv.1 W b x hk.1, stackChain_ok rest _ hv.2.2.2 hk.2⟩
+
+/-! ### a feedback block that unrolls to a dense stack (no skip connections) -/
+
+section block
+open DenseBlock
+variable {n k : ℕ}
+
+noncomputable def blockRec (s : Stack n k) (x : Vec n) : Recorded ℝ :=
+  .block (s.pres x) (vecT x :: s.acts x) ((inner s).map fun _ => none)
+
+noncomputable def blockWG (f : Feedback ℝ) (s : Stack n k) (x : Vec n) (g : Vec k) : WGrad ℝ × BGrad ℝ :=
+  match f.backward (vecT g) (s.pres x) (vecT x :: s.acts x) with
+  | .ok (_, ws, bs) => (.block ws, .block bs)
+  | .error _ => (.block [], .block [])
+
+/-- such a block in front of a chain -/
+noncomputable def consBlock {m : Idx} {em : Enc m} (f : Feedback ℝ) (s : Stack n k)
+    (rest : Chain (iVec k) (eVec k) m em) : Chain (iVec n) (eVec n) m em :=
+  .cons (.feedback f) s.net.fwd s.net.bwd (fun x => (s.pres x).head?.getD (vecT x)) (blockRec s) (blockWG f s) rest
+
+theorem real_block (f : Feedback ℝ) (s : Stack n k) (hf : IsDenseBlock f s) (hv : s.Valid) (hpos : 0 < s.layers.length)
+    (x : Vec n) :
+    layerForward (.feedback f) (vecT x) = .ok ((s.pres x).head?.getD (vecT x), vecT (s.net.fwd x), blockRec s x) ∧
+    ∀ g, layerBackward (.feedback f) (vecT g) (vecT x) ((s.pres x).head?.getD (vecT x)) (.ok (blockRec s x)) =
+      .ok (vecT (s.net.bwd x g), (blockWG f s x g).1, (blockWG f s x g).2) := by
+  refine ⟨?_, fun g => ?_⟩
+  · simp only [layerForward, Feedback.forward, block_forwardAll f s hf hv hpos x, DenseBlock.acts_last s x]
+    have hne : (s.pres x).head? ≠ none := by
+      have := (Stack.layers_length s x).1
+      cases hp : s.pres x with
+      | nil => rw [hp] at this; simp at this; omega
+      | cons a l => simp
+    cases hp : (s.pres x).head? with
+    | none => exact absurd hp hne
+    | some u0 => rfl
+  · obtain ⟨ws, bs, hb⟩ := block_backward f s hf hv x g
+    simp only [layerBackward, blockRec, blockWG, hb]
+
+theorem vjp_block (s : Stack n k) (hv : s.Valid) (x : Vec n) (hk : s.NoKinks x) :
+    IsVJP (ι := (iVec n).T) (κ := (iVec k).T) s.net.fwd x (s.net.bwd x) :=
+  Net.vjp s.net x (Stack.net_ok s x hv hk)
+
+end block
 
 theorem stack_gnet_fwd : ∀ {n k : ℕ} (s : Stack n k) (z : Vec n), (gnet (stackChain s)).fwd z = s.net.fwd z
   | _, _, .nil _, _ => rfl
